@@ -1545,12 +1545,12 @@ def run(ctx):
     for s in suites.values():
         s.run(corr.load_corpus("C17", s.name), "corpus")
     rng = ctx.rng
-    suites["ints"].run(vi_gen(rng, ctx.n(250000, 2000000)))
-    suites["ack"].run(ack_gen(rng, ctx.n(40000, 300000), ctx.thorough))
-    suites["header"].run(hd_gen(rng, ctx.n(40000, 300000), ctx.thorough))
+    suites["ints"].run(vi_gen(rng, ctx.n(180000, 2000000)))
+    suites["ack"].run(ack_gen(rng, ctx.n(30000, 300000), ctx.thorough))
+    suites["header"].run(hd_gen(rng, ctx.n(30000, 300000), ctx.thorough))
     extra = {}
-    suites["tparams"].run(tp_gen(rng, ctx.n(20000, 150000), ctx.thorough))
-    tls_cases, tls_bads = tls_gen(ctx, rng, ctx.n(16000, 120000))
+    suites["tparams"].run(tp_gen(rng, ctx.n(15000, 150000), ctx.thorough))
+    tls_cases, tls_bads = tls_gen(ctx, rng, ctx.n(12000, 120000))
     suites["tls"].run(tls_cases)
     for c, bad in tls_bads[:3]:
         ctx.violation("impl-violation", "tls: " + bad[0], corr._short(c, 4000), signature=bad[1])
